@@ -4,6 +4,8 @@
 //!   Sub {s, paths, min, max, keep, change_mid}   subscribe; `change_mid` = [cluster, attr]: that attribute changes
 //!                                                 while the priming report is being read (after its first chunk)
 //!   Change {cl, a}                                the attribute changes (the handler notifies the data model)
+//!   Emit {n, size}                                n events of `size` bytes occur in cluster 101 (Sub {.., "events": true}
+//!                                                 subscribes to the events of that cluster, too)
 //!   Wait {ms}, Lose {n}                           time passes; the next n datagrams of the device are lost
 //!   Quiet                                         longer than every max interval passes undisturbed
 //! Recorded: SubReq / Item / Est (establishment), Rep + Item (reports as the controller's handler sees them), Change,
@@ -85,6 +87,15 @@ impl NonBlockingHandler for Nothing {}
 fn items_of(report: &ReportDataResp<'_>) -> (Vec<Value>, String) {
     let mut out = Vec::new();
     let mut bad = String::new();
+    if let Some(evs) = &report.event_reports {
+        for e in evs.iter() {
+            match e {
+                Ok(rs_matter::im::EventResp::Data(d)) => out.push(json!({"evno": d.event_number, "len": d.data.str().map(|s| s.len() as i64).unwrap_or(-1)})),
+                Ok(rs_matter::im::EventResp::Status(st)) => out.push(json!({"evno": -1, "status": format!("{:?}", st.status.status)})),
+                Err(e) => { bad = format!("events: {:?}", e.code()); break; }
+            }
+        }
+    }
     if let Some(reports) = &report.attr_reports {
         for a in reports.iter() {
             match a {
@@ -109,7 +120,7 @@ impl ReportDataHandler for Reports<'_> {
         self.events.borrow_mut().push(json!({"ev": "Rep", "id": report.subscription_id, "n": items.len(), "more": report.more_chunks.unwrap_or(false), "malformed": bad, "t": sim::now_ms()}));
         for it in items {
             let mut e = it.clone();
-            e["ev"] = json!("Item");
+            e["ev"] = json!(if it.get("evno").is_some() { "Event" } else { "Item" });
             e["id"] = json!(report.subscription_id);
             e["t"] = json!(sim::now_ms());
             self.events.borrow_mut().push(e);
@@ -131,7 +142,7 @@ fn run_one(ops: &[Value]) -> Vec<Value> {
     });
     let crypto = test_only_crypto();
     let buffers: MatterBuffers = MatterBuffers::new();
-    let state: InteractionModelState<DummyNetworks, 4, 1024> = InteractionModelState::new(DummyNetworks);
+    let state: InteractionModelState<DummyNetworks, 4, 16384> = InteractionModelState::new(DummyNetworks);
     state.suppress_start_up_event();
     let ver = Ver { ver: RefCell::new(HashMap::new()), reads: Cell::new(0) };
     for c in CLUSTERS {
@@ -141,7 +152,7 @@ fn run_one(ops: &[Value]) -> Vec<Value> {
     }
     let spec = crate::imw::NodeSpec {
         endpoints: vec![(1, CLUSTERS.iter().map(|c| crate::imw::ClusterSpec { id: *c, attrs: ATTRS.iter().map(|a| crate::imw::AttrSpec { id: *a, access: Access::RV, size: 0, list: None }).collect(), cmds: vec![] }).collect())],
-        events: vec![],
+        events: vec![(1, 101, 0, 0)],
     };
     let node = crate::imw::build_node(&spec);
     let kv = dev.kv(DummyKvBlobStore);
@@ -188,10 +199,15 @@ fn run_one(ops: &[Value]) -> Vec<Value> {
                         let (min, max) = (op["min"].as_u64().unwrap_or(0) as u16, op["max"].as_u64().unwrap_or(5) as u16);
                         let keep = op["keep"].as_bool().unwrap_or(true);
                         max_max.set(max_max.get().max(max as u64));
-                        ev(json!({"ev": "SubReq", "s": s, "paths": op["paths"], "min": min, "max": max, "keep": keep, "t": sim::now_ms()}));
+                        ev(json!({"ev": "SubReq", "s": s, "paths": op["paths"], "min": min, "max": max, "keep": keep, "events": op["events"] == true, "t": sim::now_ms()}));
                         let r: Result<(), Error> = async {
                             let exchange = Exchange::initiate_for_session(&ctl, &crypto, sid)?;
-                            let mut chunk = exchange.subscribe_with(|b| b.keep_subs(keep)?.min_int_floor(min)?.max_int_ceil(max)?.attr_requests_from(&paths)?.fabric_filtered(false)?.end()).await?;
+                            let with_events = op["events"] == true;
+                            let evp = [rs_matter::im::EventPath::from_gp(&GenericPath::new(Some(1), Some(101), None))];
+                            let mut chunk = exchange.subscribe_with(|b| {
+                                let b = b.keep_subs(keep)?.min_int_floor(min)?.max_int_ceil(max)?.attr_requests_from(&paths)?;
+                                if with_events { b.event_requests_from(&evp)?.fabric_filtered(false)?.end() } else { b.fabric_filtered(false)?.end() }
+                            }).await?;
                             let mut first = true;
                             loop {
                                 {
@@ -200,7 +216,7 @@ fn run_one(ops: &[Value]) -> Vec<Value> {
                                     ev(json!({"ev": "Prime", "s": s, "n": items.len(), "more": resp.more_chunks.unwrap_or(false), "malformed": bad, "t": sim::now_ms()}));
                                     for it in items {
                                         let mut e = it.clone();
-                                        e["ev"] = json!("PItem");
+                                        e["ev"] = json!(if it.get("evno").is_some() { "PEvent" } else { "PItem" });
                                         e["s"] = json!(s);
                                         e["t"] = json!(sim::now_ms());
                                         ev(e);
@@ -229,6 +245,18 @@ fn run_one(ops: &[Value]) -> Vec<Value> {
                         }
                     }
                     "Change" => change(op["cl"].as_u64().unwrap() as u32, op["a"].as_u64().unwrap() as u32),
+                    "Emit" => {
+                        let size = op["size"].as_u64().unwrap_or(100) as usize;
+                        for _ in 0..op["n"].as_u64().unwrap_or(1) {
+                            let payload = vec![0x33u8; size];
+                            let no = state.events().push(1, 101, 0, rs_matter::im::EventPriority::Info, &kv, |mut w| {
+                                use rs_matter::tlv::TLVWrite;
+                                w.str(&rs_matter::im::events::EVENT_DATA_TAG, &payload)
+                            })?;
+                            ev(json!({"ev": "Emit", "no": no, "len": size, "t": sim::now_ms()}));
+                        }
+                        state.subscriptions().notify_event_emitted(1, 101, 0);
+                    }
                     "Wait" => embassy_time::Timer::after_millis(op["ms"].as_u64().unwrap()).await,
                     "Lose" => {
                         lose.set(lose.get() + op["n"].as_u64().unwrap() as usize);
